@@ -1,13 +1,22 @@
 #!/usr/bin/env python3
-"""mutation sanity for rs2lean: mutate scratch copies of the Rust sources, regenerate Gen/Fns*.lean,
-rebuild the Props/Xlate* modules, report which theorems stop checking.  Restores at the end."""
+"""mutation sanity for rs2lean: mutate scratch copies of the Rust sources, regenerate Gen/Fns*.lean into a
+scratch COPY of the Lean tree (/root/xlate_scratch or $VERIF_WORK; the real tree is never touched, so this can
+run while other work goes on), rebuild the Props/Xlate* modules there, report which theorems stop checking.
+The scratch directories are removed at the end.
+Usage: mutate.py [name prefixes…]   (e.g. `mutate.py N` = the phase-2 mutations, `mutate.py M B` = phase 1)"""
 import os, re, shutil, subprocess, sys
 sys.path.insert(0, "/verif/tools")
 import rs2lean
-SCR = os.path.join(os.environ.get("VERIF_WORK", "/verif/notes/xlate_selftest"), "xlate_mut_repo")
-GEN = "/verif/lean/GrinVerif/Gen"
-FILES = [rs2lean.PMMR, rs2lean.CONS, rs2lean.GLOB, rs2lean.SEG, rs2lean.TXS, rs2lean.BLK]
+ROOT = os.environ.get("VERIF_WORK", "/root/xlate_scratch")
+SCR = os.path.join(ROOT, "xlate_mut_repo")
+LEAN = os.path.join(ROOT, "xlate_mut_lean")
+GEN = os.path.join(LEAN, "GrinVerif", "Gen")
+FILES = list(rs2lean.TYPE_FILES)
 P, C, G, S, T = rs2lean.PMMR, rs2lean.CONS, rs2lean.GLOB, rs2lean.SEG, rs2lean.TXS
+PT, SI, BM = rs2lean.POWT, rs2lean.SIP, rs2lean.BMACC
+MODS = ["GrinVerif.Props.XlatePmmr", "GrinVerif.Props.XlateCons", "GrinVerif.Props.XlateSeg", "GrinVerif.Props.XlateTx",
+        "GrinVerif.Props.XlatePmmr2", "GrinVerif.Props.XlateDiff", "GrinVerif.Props.XlatePow",
+        "GrinVerif.Props.XlatePack", "GrinVerif.Props.XlateMisc"]
 MUTS = [
  ("M01 shift off by one: peak_size >>= 1 -> >>= 2 (peak_map_height)", P, "\t\tpeak_size >>= 1;\n\t}\n\t(peak_map, size)", "\t\tpeak_size >>= 2;\n\t}\n\t(peak_map, size)"),
  ("M02 >= -> > in peak_map_height", P, "\t\tpeak_map <<= 1;\n\t\tif size >= peak_size {", "\t\tpeak_map <<= 1;\n\t\tif size > peak_size {"),
@@ -31,12 +40,54 @@ MUTS = [
  ("M20 fee_shift: >> -> << ", T, "((self.0 >> FeeFields::FEE_BITS) & FeeFields::FEE_SHIFT_MASK) as u8", "((self.0 << FeeFields::FEE_BITS) & FeeFields::FEE_SHIFT_MASK) as u8"),
  ("M21 unsupported construct: n_leaves uses a closure", P, "\tlet (peak_map, height) = peak_map_height(size);\n\tif height == 0 {\n\t\tpeak_map\n\t} else {\n\t\tpeak_map + 1", "\tlet (peak_map, height) = peak_map_height(size);\n\tlet f = |x: u64| x + 1;\n\tif height == 0 {\n\t\tpeak_map\n\t} else {\n\t\tf(peak_map)"),
  ("M22 function removed: is_leaf renamed", P, "pub fn is_leaf(pos0: u64) -> bool {", "pub fn is_leaf_renamed(pos0: u64) -> bool {"),
+ # ---- phase 2: the newly translated functions
+ ("N01 peaks: `x - 1` -> `x - 2`", P, "\t\t\t.map(|x| x - 1)", "\t\t\t.map(|x| x - 2)"),
+ ("N02 peaks: `height == 0` -> `height != 0`", P, "\tlet (peak_sizes, height) = peak_sizes_height(size);\n\tif height == 0 {", "\tlet (peak_sizes, height) = peak_sizes_height(size);\n\tif height != 0 {"),
+ ("N03 bintree_leaf_pos_iter: `..=` -> `..`", P, "(leaf_start..=leaf_end).map(", "(leaf_start..leaf_end).map("),
+ ("N04 bintree_pos_iter: `..=pos0` -> `..pos0`", P, "(leaf_start..=pos0).into_iter()", "(leaf_start..pos0).into_iter()"),
+ ("N05 ar_count: 100 -> 10", C, "\t100 * diff_data.iter().filter(", "\t10 * diff_data.iter().filter("),
+ ("N06 ar_count: filter negated", C, ".filter(|n| n.is_secondary)", ".filter(|n| !n.is_secondary)"),
+ ("N07 secondary_pow_scaling: max(1, adj_count) -> max(2, adj_count)", C, "scale_sum * target_pct / max(1, adj_count)", "scale_sum * target_pct / max(2, adj_count)"),
+ ("N08 secondary_pow_scaling: DMA_WINDOW * target_pct -> +", C, "let target_count = DMA_WINDOW * target_pct;", "let target_count = DMA_WINDOW + target_pct;"),
+ ("N09 next_dma_difficulty: skip(1) -> skip(2)", C, "\t\t.skip(1)\n\t\t.map(|dd| dd.difficulty.to_num())", "\t\t.skip(2)\n\t\t.map(|dd| dd.difficulty.to_num())"),
+ ("N10 next_dma_difficulty: window end index off by one", C, "diff_data[DMA_WINDOW as usize].timestamp - diff_data[0].timestamp", "diff_data[DMA_WINDOW as usize - 1].timestamp - diff_data[0].timestamp"),
+ ("N11 next_wtema_difficulty: - BLOCK_TIME_SEC -> + BLOCK_TIME_SEC", C, "(WTEMA_HALF_LIFE - BLOCK_TIME_SEC + last_block_time)", "(WTEMA_HALF_LIFE + BLOCK_TIME_SEC + last_block_time)"),
+ ("N12 next_wtema_difficulty: swapped operands of the timestamp difference", C, "last_header.timestamp - prev_header.timestamp", "prev_header.timestamp - last_header.timestamp"),
+ ("N13 next_difficulty: `< HeaderVersion(5)` -> `<=`", C, "if header_version(height) < HeaderVersion(5) {", "if header_version(height) <= HeaderVersion(5) {"),
+ ("N14 difficulty_data_to_vector: `n > 1` -> `n > 2`", G, "let last_ts_delta = if n > 1 {", "let last_ts_delta = if n > 2 {"),
+ ("N15 difficulty_data_to_vector: dropped `last_n.reverse()`", G, "\tlast_n.reverse();\n\tlast_n\n", "\tlast_n\n"),
+ ("N16 difficulty_data_to_vector: saturating_sub -> wrapping_sub", G, "last_ts = last_ts.saturating_sub(last_ts_delta);", "last_ts = last_ts.wrapping_sub(last_ts_delta);"),
+ ("N17 Difficulty::from_num: max(num, 1) -> max(num, 2)", PT, "Difficulty { num: max(num, 1) }", "Difficulty { num: max(num, 2) }"),
+ ("N18 scaled_difficulty: << 64 -> << 63", PT, "((scale as u128) << 64)", "((scale as u128) << 63)"),
+ ("N19 SipHash24::round: rotl 13 -> 14", SI, "rotl!(self.1, 13);", "rotl!(self.1, 14);"),
+ ("N20 SipHash24::hash: 0xff -> 0xfe", SI, "self.2 ^= 0xff;", "self.2 ^= 0xfe;"),
+ ("N21 SipHash24::hash: 4 finalisation rounds -> 3", SI, "for _ in 0..4 {", "for _ in 0..3 {"),
+ ("N22 SipHash24::digest: ^ -> |", SI, "(self.0 ^ self.1) ^ (self.2 ^ self.3)", "(self.0 ^ self.1) ^ (self.2 | self.3)"),
+ ("N23 macro rotl!: 64 - shift -> 63 - shift", SI, "($num >> (64 - $shift))", "($num >> (63 - $shift))"),
+ ("N24 siphash_block: nonce_i + 1 -> nonce_i", SI, "\t\tnonce_i + 1\n", "\t\tnonce_i\n"),
+ ("N25 extract_bits: dropped - 1 of the mask", PT, "let bit_mask = (1 << bit_count) - 1;", "let bit_mask = 1 << bit_count;"),
+ ("N26 read_number: `>` -> `>=` when moving the window back", PT, "if read_from + 8 > bits.len() {", "if read_from + 8 >= bits.len() {"),
+ ("N27 pack_len: + 7 -> + 8", PT, "(bit_width as usize * global::proofsize() + 7) / 8", "(bit_width as usize * global::proofsize() + 8) / 8"),
+ ("N28 chunk_start_idx: !(NBITS - 1) -> !NBITS", BM, "idx & !(Self::NBITS - 1)", "idx & !(Self::NBITS)"),
+ ("N29 pmmr_size: 1 << height -> 2 << height", S, "num_segments as u64 * (1 << height)", "num_segments as u64 * (2 << height)"),
+ ("N30 old_weight_by_iok: 4 -> 3", T, "\t\t\t.saturating_mul(4)", "\t\t\t.saturating_mul(3)"),
+ ("N31 cut_through_horizon: testing arms swapped", G, "ChainTypes::AutomatedTesting => AUTOMATED_TESTING_CUT_THROUGH_HORIZON,\n\t\tChainTypes::UserTesting => USER_TESTING_CUT_THROUGH_HORIZON,", "ChainTypes::AutomatedTesting => USER_TESTING_CUT_THROUGH_HORIZON,\n\t\tChainTypes::UserTesting => AUTOMATED_TESTING_CUT_THROUGH_HORIZON,"),
+ ("N32 unsupported construct introduced: ar_count uses a string", C, "\t100 * diff_data.iter().filter(", "\tlet _s = \"x\";\n\t100 * diff_data.iter().filter("),
  # benign changes: must NOT break anything
+ ("NB1 benign: closure parameters renamed in ar_count / secondary_pow_scaling, comment added", C, "\t100 * diff_data.iter().filter(|n| n.is_secondary).count() as u64", "\t// count\n\t100 * diff_data\n\t\t.iter()\n\t\t.filter(|hdr| hdr.is_secondary)\n\t\t.count() as u64"),
+ ("NB2 benign: loop variable and local renamed in siphash_block", SI, None, "siphash_block"),
+ ("NB3 benign: locals renamed in next_wtema_difficulty", C, None, "next_wtema_difficulty"),
+ ("NB4 benign: macro parameter renamed, reformatting of SipHash24::round", SI, None, "rotl"),
  ("B01 benign: comments + reformatting of peak_map_height", P, "\twhile peak_size != 0 {\n\t\tpeak_map <<= 1;\n\t\tif size >= peak_size {\n\t\t\tsize -= peak_size;\n\t\t\tpeak_map |= 1;\n\t\t}", "\twhile peak_size != 0 { /* loop */\n\t\tpeak_map <<= 1; // shift\n\t\tif size >= peak_size\n\t\t{ size -= peak_size;\n\n\t\t\tpeak_map |= 1; }"),
  ("B02 benign: local variable renamed in family (peak -> pk, height -> hh)", P, "\tlet (peak_map, height) = peak_map_height(pos0);\n\tlet peak = 1 << height;\n\tif (peak_map & peak) != 0 {\n\t\t(pos0 + 1, pos0 + 1 - 2 * peak)\n\t} else {\n\t\t(pos0 + 2 * peak, pos0 + 2 * peak - 1)", "\tlet (peak_map, hh) = peak_map_height(pos0);\n\tlet pk = 1 << hh;\n\tif (peak_map & pk) != 0 {\n\t\t(pos0 + 1, pos0 + 1 - 2 * pk)\n\t} else {\n\t\t(pos0 + 2 * pk, pos0 + 2 * pk - 1)"),
  ("B03 benign: loop variables of peak_map_height renamed (peak_size -> ps, peak_map -> pm)", P, None, None),
  ("B04 benign: parameter renamed in damp / literal written 1u64", C, "pub fn damp(actual: u64, goal: u64, damp_factor: u64) -> u64 {\n\t(actual + (damp_factor - 1) * goal) / damp_factor", "pub fn damp(a: u64, goal: u64, df: u64) -> u64 {\n\t(a + (df - 1u64) * goal) / df"),
 ]
+
+def prepare_lean():
+    """scratch copy of the Lean tree including its build outputs (only the changed modules are rebuilt)"""
+    shutil.rmtree(LEAN, ignore_errors=True)
+    subprocess.run(["cp", "-a", "/verif/lean", LEAN], check=True)
 
 def fresh():
     shutil.rmtree(SCR, ignore_errors=True)
@@ -51,8 +102,8 @@ def write(files):
             open(p, "w").write(c)
 
 def build():
-    mods = ["GrinVerif.Props.XlatePmmr", "GrinVerif.Props.XlateCons", "GrinVerif.Props.XlateSeg", "GrinVerif.Props.XlateTx"]
-    r = subprocess.run(["lake", "build"] + mods, cwd="/verif/lean", capture_output=True, text=True)
+    mods = [m for m in MODS if os.path.exists(os.path.join(LEAN, m.replace(".", "/") + ".lean"))]
+    r = subprocess.run(["lake", "build"] + mods, cwd=LEAN, capture_output=True, text=True)
     out = r.stdout + r.stderr
     errs = re.findall(r"error: (\S+?\.lean):(\d+):(\d+): (.*)", out)
     return r.returncode, errs
@@ -66,13 +117,31 @@ def thm_at(path, line):
     return best
 
 only = sys.argv[1:]
+prepare_lean()
 try:
     for name, f, old, new in MUTS:
         if only and not any(name.startswith(o) for o in only): continue
         fresh()
         p = os.path.join(SCR, f)
         s = open(p).read()
-        if old is None:   # B03: rename inside peak_map_height only
+        if old is None and new == "siphash_block":
+            a = s.index("pub fn siphash_block("); b = s.index("/// Implements siphash 2-4 specialized")
+            body = s[a:b]
+            body = re.sub(r"\bnonce_hash\b", "hashes", body); body = re.sub(r"\bi\b", "k", body)
+            body = re.sub(r"\bxor\b", "acc", body)
+            s = s[:a] + body + s[b:]
+        elif old is None and new == "next_wtema_difficulty":
+            a = s.index("pub fn next_wtema_difficulty<T>("); b = s.index("/// Count, in units of 1/100")
+            body = s[a:b]
+            for x, y in (("last_headers", "it"), ("last_header", "h0"), ("prev_header", "h1"), ("next_diff", "nd"),
+                         ("last_block_time", "dt")):
+                body = re.sub(r"\b%s\b" % x, y, body)
+            s = s[:a] + body + s[b:]
+        elif old is None and new == "rotl":
+            s = s.replace("$num", "$x").replace("$shift", "$s")
+            s = s.replace("\t\tself.0 = self.0.wrapping_add(self.1);\n\t\tself.2 = self.2.wrapping_add(self.3);",
+                          "\t\tself.0 = self.0.wrapping_add(self.1); // a\n\n\t\tself.2 =\n\t\t\tself.2.wrapping_add(self.3);")
+        elif old is None:   # B03: rename inside peak_map_height only
             a = s.index("pub fn peak_map_height("); b = s.index("pub fn peak_sizes_height(")
             body = s[a:b]
             body = re.sub(r"\bpeak_size\b", "ps", body); body = re.sub(r"\bpeak_map\b", "pm", body)
@@ -87,7 +156,7 @@ try:
         rc, errs = build()
         broken = []
         for ef, ln, col, msg in errs:
-            path = ef if os.path.isabs(ef) else os.path.join("/verif/lean", ef)
+            path = ef if os.path.isabs(ef) else os.path.join(LEAN, ef)
             broken.append(f"{os.path.basename(ef)}:{thm_at(path, int(ln))}")
         seen = []
         for b in broken:
@@ -98,5 +167,6 @@ try:
 finally:
     write(rs2lean.generate("/repo"))
     rc, errs = build()
-    print("restored; build rc =", rc)
+    print("unmutated source again; build rc =", rc)
     shutil.rmtree(SCR, ignore_errors=True)
+    shutil.rmtree(LEAN, ignore_errors=True)
